@@ -32,7 +32,7 @@ ASSUMPTIONS = [
 ]
 SHARDS = {"quick": 16, "thorough": 16}
 TIMEOUT = {"quick": 900, "thorough": 7200}
-MIN_CASES = {"quick": 3000, "thorough": 60000}
+MIN_CASES = {"quick": 3000, "thorough": 25000}
 REQUIRED_COUNTERS = ["ip_encrypts_logged", "ip_accepts_logged", "ip_rejects_logged", "ble_encrypts_logged", "ble_accepts_logged", "ble_rejects_logged",
                      "coap_encrypts_logged", "coap_accepts_logged", "coap_rejects_logged", "coap_event_accepts_logged", "sessions_rekeyed", "ble_cancel_sweep_points"]
 
@@ -485,19 +485,19 @@ def run(ctx) -> None:
 
     async def main():
         idx = 0
-        d_ip = ctx.pick(3, 4)
+        d_ip = ctx.pick(3, 5)
         for n in range(1, d_ip + 1):
             for h in itertools.product(IP_ALPHABET, repeat=n):
                 idx += 1
                 if ctx.mine(idx):
                     await ip_history(ctx, "1" + "".join(h), idx)
-        d_ble = ctx.pick(3, 4)
+        d_ble = ctx.pick(3, 5)
         for n in range(1, d_ble + 1):
             for h in itertools.product(BLE_ALPHABET, repeat=n):
                 idx += 1
                 if ctx.mine(idx):
                     await ble_history(ctx, "".join(h) + "r", idx)
-        d_coap = ctx.pick(3, 4)
+        d_coap = ctx.pick(3, 5)
         for n in range(1, d_coap + 1):
             for h in itertools.product(COAP_ALPHABET, repeat=n):
                 idx += 1
@@ -517,7 +517,7 @@ def run(ctx) -> None:
                     await ble_history(ctx, pre + "r", ("sweep", pre, k), cancel_at=k)
                     await ble_history(ctx, pre + "w", ("sweepw", pre, k), cancel_at=k)
         rng = ctx.rng("C06.random")
-        for k in range(ctx.pick(1600, 24000) // ctx.nshards):
+        for k in range(ctx.pick(1600, 120000) // ctx.nshards):
             t = k % 3
             n = rng.randint(8, 40)
             if t == 0:
